@@ -5,8 +5,10 @@ import PoryProofs.MarkerLemmas
 L2 helpers, stage 6: **with line markers off the emitter does not depend on the positions of the token records
 stored in the AST.**
 
-`emitProgram_pe : o.markers = false → emitProgram o (peProgram p) = peRes (emitProgram o p)` — the lines are the
-same; a located error (`.perr tok msg`: a label clash found by `renderStatements`) carries the erased token.
+`emitProgram_pe : o.markers = false → peRes (emitProgram o (peProgram p)) = peRes (emitProgram o p)` — the lines
+are the same; a located error (`.perr tok msg`: a label clash found by `renderStatements`) is the same up to the
+positions of its token (`peRes` on both sides: `scriptChunks` / `optimizeChunkOrder` have the type of functions
+that could return a located error).  `emitProgram_congr`: programs with the same `peProgram` are emitted alike.
 The proof commutes the position erasure through the chunk worklist of PoryModel/Emitter.lean (`peChunk`, `peWS`;
 the structure follows PoryProofs/ProgramMetaErase.lean, whose definitional unfoldings `createIf_eq`, … are
 reused) and through PoryModel/EmitRender.lean (where the only reads of a position are `marker` / `emitRaw`,
@@ -106,7 +108,7 @@ theorem splitElifs_pe : ∀ (elifs : List (BoolExpr × List Stmt)) (ids : List N
       | error err => rfl
       | ok q2 => rfl
 
-theorem foldl_pe {α : Type} (f : α → α) (step : WS × List Nat → α → WS × List Nat)
+theorem foldlWS_pe {α : Type} (f : α → α) (step : WS × List Nat → α → WS × List Nat)
     (h : ∀ w ids e, step (peWS w, ids) (f e) = (peWS (step (w, ids) e).1, (step (w, ids) e).2)) :
     ∀ (l : List α) (w : WS) (ids : List Nat),
       (l.map f).foldl step (peWS w, ids) =
@@ -114,7 +116,7 @@ theorem foldl_pe {α : Type} (f : α → α) (step : WS × List Nat → α → W
   | [], _, _ => rfl
   | x :: r, w, ids => by
     simp only [List.map_cons, List.foldl_cons, h]
-    exact foldl_pe f step h r (step (w, ids) x).1 (step (w, ids) x).2
+    exact foldlWS_pe f step h r (step (w, ids) x).1 (step (w, ids) x).2
 
 /-! ### `createIf` in named steps -/
 
@@ -131,7 +133,7 @@ theorem createIf_pe (cond : BoolExpr) (body : List Stmt) (elifs : List (BoolExpr
       mapOk (fun r => (peWS r.1, r.2)) (createIf cond body elifs els c i s) := by
   rw [createIf_eq, createIf_eq, splitChunkForBranch_pe]
   simp only [allocPush_pe]
-  rw [foldl_pe (fun p : BoolExpr × List Stmt => (peBool p.1, p.2.map peS)) _
+  rw [foldlWS_pe (fun p : BoolExpr × List Stmt => (peBool p.1, p.2.map peS)) _
     (fun w ids e => by simp only [elifStep, allocPush_pe]) elifs]
   generalize (elifs.foldl (elifStep (splitChunkForBranch c i s).2)
     ((allocPush (splitChunkForBranch c i s).2 body (splitChunkForBranch c i s).1).1, [])) = F
@@ -541,22 +543,39 @@ theorem optimizeChunkOrder_pe (cs : List Chunk) :
   rw [hids, List.length_map, optimizeLoop_pe]
   cases cs <;> rfl
 
-theorem renderStatements_pe (o : Opts) (ps : List ((Nat × Nat) × String)) (cl tl : List String) :
-    ∀ (l : List Stmt), renderStatements o ps cl tl (l.map peS) = renderStatements o ps cl tl l
+theorem renderCommand_pe (ps : List ((Nat × Nat) × String)) (c : Cmd) :
+    renderCommand ps (peCmd c) = renderCommand ps c := rfl
+
+theorem renderStatements_pe (o : Opts) (hm : o.markers = false) (ps : List ((Nat × Nat) × String))
+    (cl tl : List String) :
+    ∀ (l : List Stmt), renderStatements o ps cl tl (l.map peS) = peRes (renderStatements o ps cl tl l)
   | [] => rfl
   | .cmd c :: r => by
-    simp only [List.map_cons, peS_cmd, renderStatements, renderStatements_pe o ps cl tl r]
+    simp only [List.map_cons, peS_cmd, renderStatements, renderStatements_pe o hm ps cl tl r, marker_off hm,
+      renderCommand_pe]
+    cases renderStatements o ps cl tl r <;> rfl
   | .label t n g :: r => by
-    simp only [List.map_cons, peS_label, renderStatements, renderStatements_pe o ps cl tl r]
-  | .ite .. :: r => by simp only [List.map_cons, peS_ite, renderStatements]
-  | .while_ .. :: r => by simp only [List.map_cons, peS_while, renderStatements]
-  | .doWhile .. :: r => by simp only [List.map_cons, peS_doWhile, renderStatements]
-  | .brk .. :: r => by simp only [List.map_cons, peS_brk, renderStatements]
-  | .cont .. :: r => by simp only [List.map_cons, peS_cont, renderStatements]
-  | .switch_ .. :: r => by simp only [List.map_cons, peS_switch, renderStatements]
+    simp only [List.map_cons, peS_label, renderStatements, renderStatements_pe o hm ps cl tl r, marker_off hm]
+    split
+    · rfl
+    · split
+      · rfl
+      · cases renderStatements o ps cl tl r <;> rfl
+  | .ite .. :: r => by simp only [List.map_cons, peS_ite, renderStatements]; rfl
+  | .while_ .. :: r => by simp only [List.map_cons, peS_while, renderStatements]; rfl
+  | .doWhile .. :: r => by simp only [List.map_cons, peS_doWhile, renderStatements]; rfl
+  | .brk .. :: r => by simp only [List.map_cons, peS_brk, renderStatements]; rfl
+  | .cont .. :: r => by simp only [List.map_cons, peS_cont, renderStatements]; rfl
+  | .switch_ .. :: r => by simp only [List.map_cons, peS_switch, renderStatements]; rfl
 
-theorem renderBranching_pe (o : Opts) (ps : List ((Nat × Nat) × String)) (scriptName : String) (c : Chunk)
-    (next : Option Nat) :
+theorem renderBranchComparison_pe (o : Opts) (hm : o.markers = false) (n : String) (t : Nat) (e : OpExpr) :
+    renderBranchComparison o n t (peOp e) = renderBranchComparison o n t e := by
+  unfold renderBranchComparison
+  simp only [marker_off hm]
+  rfl
+
+theorem renderBranching_pe (o : Opts) (hm : o.markers = false) (ps : List ((Nat × Nat) × String))
+    (scriptName : String) (c : Chunk) (next : Option Nat) :
     renderBranching o ps scriptName (peChunk c) next = renderBranching o ps scriptName c next := by
   unfold renderBranching
   have hb : (peChunk c).branch = peBranch c.branch := rfl
@@ -565,34 +584,252 @@ theorem renderBranching_pe (o : Opts) (ps : List ((Nat × Nat) × String)) (scri
   rw [hb, hr, hu]
   cases c.branch with
   | switch_ op cases d dest =>
-    simp only [peBranch, List.flatMap_map, List.map_map]
+    simp only [peBranch, List.flatMap_map, List.map_map, marker_off hm]
     rfl
+  | leaf t e f =>
+    simp only [peBranch, renderBranchComparison_pe o hm]
+    have hp : (peOp e).preamble = e.preamble.map peCmd := rfl
+    simp only [hp]
+    cases e.preamble <;> rfl
   | _ => rfl
 
-theorem renderBodies_pe (o : Opts) (ps : List ((Nat × Nat) × String)) (scriptName : String)
-    (cs : List Chunk) (cl tl : List String) :
+theorem renderBodies_pe (o : Opts) (hm : o.markers = false) (ps : List ((Nat × Nat) × String))
+    (scriptName : String) (cs : List Chunk) (cl tl : List String) :
     ∀ (order : List Nat),
-      renderBodies o ps scriptName (cs.map peChunk) cl tl order = renderBodies o ps scriptName cs cl tl order
-  | [] => by rw [renderBodies, renderBodies]
+      renderBodies o ps scriptName (cs.map peChunk) cl tl order =
+        peRes (renderBodies o ps scriptName cs cl tl order)
+  | [] => by rw [renderBodies, renderBodies]; rfl
   | id :: rest => by
     rw [renderBodies, renderBodies, findChunk_pe]
     cases findChunk cs id with
     | none => rfl
     | some c =>
       have hst : (peChunk c).statements = c.statements.map peS := rfl
-      simp only [Option.map_some, hst, renderStatements_pe, renderBranching_pe,
-        renderBodies_pe o ps scriptName cs cl tl rest]
+      simp only [Option.map_some, hst, renderStatements_pe o hm, renderBranching_pe o hm,
+        renderBodies_pe o hm ps scriptName cs cl tl rest]
+      cases renderStatements o ps cl tl c.statements with
+      | error e => rfl
+      | ok ls =>
+        simp only [peRes_ok]
+        cases renderBodies o ps scriptName cs cl tl rest <;> rfl
 
-theorem renderChunks_pe (o : Opts) (ps : List ((Nat × Nat) × String)) (cs : List Chunk) (scriptName : String)
-    (isGlobal : Bool) (tl : List String) :
-    renderChunks o ps (cs.map peChunk) scriptName isGlobal tl = renderChunks o ps cs scriptName isGlobal tl := by
+theorem peEFail_idem (e : EFail) : peEFail (peEFail e) = peEFail e := by cases e <;> rfl
+theorem peRes_idem {α : Type} (x : Except EFail α) : peRes (peRes x) = peRes x := by
+  cases x with
+  | error e => simp only [peRes_error, peEFail_idem]
+  | ok a => rfl
+
+/-- two results agree up to the position of the token of a located error -/
+theorem peRes_cases {α : Type} {x' x : Except EFail α} (h : peRes x' = peRes x) :
+    (∃ e' e, x' = .error e' ∧ x = .error e ∧ peEFail e' = peEFail e) ∨ (∃ a, x' = .ok a ∧ x = .ok a) := by
+  cases x' with
+  | error e' =>
+    cases x with
+    | error e => exact .inl ⟨e', e, rfl, rfl, by simpa using h⟩
+    | ok a => cases h
+  | ok a' =>
+    cases x with
+    | error e => cases h
+    | ok a => cases h; exact .inr ⟨a', rfl, rfl⟩
+
+theorem renderChunks_pe (o : Opts) (hm : o.markers = false) (ps : List ((Nat × Nat) × String)) (cs : List Chunk)
+    (scriptName : String) (isGlobal : Bool) (tl : List String) :
+    peRes (renderChunks o ps (cs.map peChunk) scriptName isGlobal tl) =
+      peRes (renderChunks o ps cs scriptName isGlobal tl) := by
   unfold renderChunks
   have hids : (cs.map peChunk).map (·.id) = cs.map (·.id) := by
     rw [List.map_map]; rfl
   have hlabels : ((cs.map peChunk).map fun c => chunkLabel scriptName c.id) =
       (cs.map fun c => chunkLabel scriptName c.id) := by
     rw [List.map_map]; rfl
-  simp only [optimizeChunkOrder_pe, hids, hlabels, renderBodies_pe]
+  simp only [optimizeChunkOrder_pe, hids, hlabels, renderBodies_pe o hm]
+  cases (if o.optimize = true then optimizeChunkOrder cs else Except.ok (sortNat (cs.map (·.id)))) with
+  | error e => rfl
+  | ok order =>
+    simp only
+    cases renderBodies o ps scriptName cs (cs.map fun c => chunkLabel scriptName c.id) tl order with
+    | error e => simp only [peRes_error, peEFail_idem]
+    | ok q => rfl
 
+/-- `emitScript` on the erased script. -/
+theorem emitScript_pe (o : Opts) (hm : o.markers = false) (ps : List ((Nat × Nat) × String)) (tl : List String)
+    (s : Script) : peRes (emitScript o ps tl (peScript s)) = peRes (emitScript o ps tl s) := by
+  unfold emitScript
+  simp only [peScript, scriptChunks_pe]
+  cases scriptChunks s.body with
+  | error e => rfl
+  | ok cs => simp only [mapOk_ok, renderChunks_pe o hm]
+
+/-! ### the other statement kinds -/
+
+theorem emitText_pe (o : Opts) (hm : o.markers = false) (t : Text) : emitText o (peText t) = emitText o t := by
+  unfold emitText
+  simp only [marker_off hm]
+  rfl
+
+theorem emitRaw_pe (o : Opts) (hm : o.markers = false) (v : Tok) (x : String) :
+    emitRaw o (pe v) x = emitRaw o v x := by
+  unfold emitRaw
+  simp only [hm]
+  rfl
+
+theorem steps_pe (o : Opts) (hm : o.markers = false) : ∀ cs : List Tok,
+    emitMovement.steps o (cs.map pe) = emitMovement.steps o cs
+  | [] => rfl
+  | c :: r => by
+    simp only [List.map_cons, emitMovement.steps, marker_off hm, pe_lit, steps_pe o hm r]
+
+theorem emitMovement_pe (o : Opts) (hm : o.markers = false) (m : MovementStmt) :
+    emitMovement o (peMovement m) = emitMovement o m := by
+  unfold emitMovement
+  simp only [peMovement, marker_off hm, steps_pe o hm]
+
+theorem martGo_pe (o : Opts) (hm : o.markers = false) : ∀ (items : List String) (ts : List Tok),
+    emitMart.go o (ts.map pe) items = emitMart.go o ts items
+  | [], _ => rfl
+  | item :: r, ts => by
+    simp only [emitMart.go, marker_off hm]
+    have h := martGo_pe o hm r ts.tail
+    rw [List.map_tail] at h
+    rw [h]
+
+theorem emitMart_pe (o : Opts) (hm : o.markers = false) (tok : Tok) (name : String) (tis : List Tok)
+    (items : List String) (scope : TT) :
+    emitMart o (pe tok) name (tis.map pe) items scope = emitMart o tok name tis items scope := by
+  unfold emitMart
+  simp only [marker_off hm, martGo_pe o hm]
+
+theorem emitScripts_pe (o : Opts) (hm : o.markers = false) (ps : List ((Nat × Nat) × String)) (tl : List String) :
+    ∀ l : List (Option Script),
+      peRes (emitScripts o ps tl (l.map (Option.map peScript))) = peRes (emitScripts o ps tl l)
+  | [] => rfl
+  | none :: r => by
+    simp only [List.map_cons, Option.map_none, emitScripts]
+    exact emitScripts_pe o hm ps tl r
+  | some s :: r => by
+    simp only [List.map_cons, Option.map_some, emitScripts]
+    rcases peRes_cases (emitScript_pe o hm ps tl s) with ⟨e', e, h1, h2, h3⟩ | ⟨a, h1, h2⟩
+    · simp only [h1, h2, peRes_error, h3]
+    · simp only [h1, h2]
+      rcases peRes_cases (emitScripts_pe o hm ps tl r) with ⟨e', e, h1, h2, h3⟩ | ⟨a', h1, h2⟩
+      · simp only [h1, h2, peRes_error, h3]
+      · simp only [h1, h2]
+
+theorem emitTables_pe (o : Opts) (hm : o.markers = false) (ps : List ((Nat × Nat) × String)) (tl : List String) :
+    ∀ l : List TableMapScript, peRes (emitTables o ps tl (l.map peTable)) = peRes (emitTables o ps tl l)
+  | [] => rfl
+  | t :: r => by
+    simp only [List.map_cons, emitTables]
+    have hs : (peTable t).entries.map (·.script) = (t.entries.map (·.script)).map (Option.map peScript) := by
+      simp only [peTable, List.map_map]
+      rfl
+    have hh : ((peTable t).entries.flatMap fun e => marker o e.condition ++
+          [Line.mapScript2 e.condition.lit e.comparison e.name]) =
+        (t.entries.flatMap fun e => marker o e.condition ++ [Line.mapScript2 e.condition.lit e.comparison e.name]) := by
+      simp only [peTable, List.flatMap_map, marker_off hm]
+      rfl
+    rw [hs, hh]
+    rcases peRes_cases (emitScripts_pe o hm ps tl (t.entries.map (·.script))) with ⟨e', e, h1, h2, h3⟩ | ⟨a, h1, h2⟩
+    · simp only [h1, h2, peRes_error, h3]
+    · simp only [h1, h2]
+      rcases peRes_cases (emitTables_pe o hm ps tl r) with ⟨e', e, h1, h2, h3⟩ | ⟨a', h1, h2⟩
+      · simp only [h1, h2, peRes_error, h3]
+      · simp only [h1, h2]
+        rfl
+
+theorem emitMapScripts_pe (o : Opts) (hm : o.markers = false) (ps : List ((Nat × Nat) × String))
+    (tl : List String) (m : MapScripts) :
+    peRes (emitMapScripts o ps tl (peMapScripts m)) = peRes (emitMapScripts o ps tl m) := by
+  unfold emitMapScripts
+  have hs : (peMapScripts m).mapScripts.map (·.script) = (m.mapScripts.map (·.script)).map (Option.map peScript) := by
+    simp only [peMapScripts, List.map_map]
+    rfl
+  have h1 : ((peMapScripts m).mapScripts.flatMap fun ms => marker o ms.type ++ [Line.mapScript ms.type.lit ms.name]) =
+      (m.mapScripts.flatMap fun ms => marker o ms.type ++ [Line.mapScript ms.type.lit ms.name]) := by
+    simp only [peMapScripts, List.flatMap_map, marker_off hm]
+    rfl
+  have h2 : ((peMapScripts m).tables.flatMap fun t => marker o t.type ++ [Line.mapScript t.type.lit t.name]) =
+      (m.tables.flatMap fun t => marker o t.type ++ [Line.mapScript t.type.lit t.name]) := by
+    simp only [peMapScripts, List.flatMap_map, marker_off hm]
+    rfl
+  have h3 : (peMapScripts m).tables = m.tables.map peTable := rfl
+  have h4 : (peMapScripts m).name = m.name := rfl
+  have h5 : (peMapScripts m).scope = m.scope := rfl
+  rw [hs, h1, h2, h3, h4, h5]
+  rcases peRes_cases (emitScripts_pe o hm ps tl (m.mapScripts.map (·.script))) with ⟨e', e, k1, k2, k3⟩ | ⟨a, k1, k2⟩
+  · simp only [k1, k2, peRes_error, k3]
+  · simp only [k1, k2]
+    rcases peRes_cases (emitTables_pe o hm ps tl m.tables) with ⟨e', e, k1, k2, k3⟩ | ⟨a', k1, k2⟩
+    · simp only [k1, k2, peRes_error, k3]
+    · simp only [k1, k2]
+
+theorem emitTops_pe (o : Opts) (hm : o.markers = false) (ps : List ((Nat × Nat) × String)) (tl : List String) :
+    ∀ (l : List Top) (i : Nat), peRes (emitTops o ps tl (l.map peTop) i) = peRes (emitTops o ps tl l i)
+  | [], i => rfl
+  | t :: r, i => by
+    have ih := fun j => emitTops_pe o hm ps tl r j
+    cases t with
+    | text x =>
+      simp only [List.map_cons, peTop, emitTops]
+      exact ih i
+    | script sc =>
+      simp only [List.map_cons, peTop, emitTops]
+      rcases peRes_cases (emitScript_pe o hm ps tl sc) with ⟨e', e, k1, k2, k3⟩ | ⟨a, k1, k2⟩
+      · simp only [k1, k2, peRes_error, k3]
+      · simp only [k1, k2]
+        rcases peRes_cases (ih (i + 1)) with ⟨e', e, k1, k2, k3⟩ | ⟨a', k1, k2⟩
+        · simp only [k1, k2, peRes_error, k3]
+        · simp only [k1, k2]
+    | raw a b c =>
+      simp only [List.map_cons, peTop, emitTops, emitRaw_pe o hm]
+      rcases peRes_cases (ih (i + 1)) with ⟨e', e, k1, k2, k3⟩ | ⟨a', k1, k2⟩
+      · simp only [k1, k2, peRes_error, k3]
+      · simp only [k1, k2]
+    | movement m =>
+      simp only [List.map_cons, peTop, emitTops, emitMovement_pe o hm]
+      rcases peRes_cases (ih (i + 1)) with ⟨e', e, k1, k2, k3⟩ | ⟨a', k1, k2⟩
+      · simp only [k1, k2, peRes_error, k3]
+      · simp only [k1, k2]
+    | mart a b c d e =>
+      simp only [List.map_cons, peTop, emitTops, emitMart_pe o hm]
+      rcases peRes_cases (ih (i + 1)) with ⟨e', e, k1, k2, k3⟩ | ⟨a', k1, k2⟩
+      · simp only [k1, k2, peRes_error, k3]
+      · simp only [k1, k2]
+    | mapscripts m =>
+      simp only [List.map_cons, peTop, emitTops]
+      rcases peRes_cases (emitMapScripts_pe o hm ps tl m) with ⟨e', e, k1, k2, k3⟩ | ⟨a, k1, k2⟩
+      · simp only [k1, k2, peRes_error, k3]
+      · simp only [k1, k2]
+        rcases peRes_cases (ih (i + 1)) with ⟨e', e, k1, k2, k3⟩ | ⟨a', k1, k2⟩
+        · simp only [k1, k2, peRes_error, k3]
+        · simp only [k1, k2]
+
+/-- **With line markers off the emitter does not depend on token positions**: the erased program is emitted to
+the same lines; a located error carries the same message (its token erased). -/
+theorem emitProgram_pe (o : Opts) (hm : o.markers = false) (p : Program) :
+    peRes (emitProgram o (peProgram p)) = peRes (emitProgram o p) := by
+  unfold emitProgram
+  have h1 : (peProgram p).texts.map (·.name) = p.texts.map (·.name) := by
+    simp only [peProgram, List.map_map]
+    rfl
+  have h2 : (peProgram p).patches = p.patches := rfl
+  have h3 : (peProgram p).tops = p.tops.map peTop := rfl
+  have h4 : (peProgram p).texts.length = p.texts.length := by simp only [peProgram, List.length_map]
+  have h5 : ∀ j, emitText o ((peProgram p).texts.getD j {}) = emitText o (p.texts.getD j {}) := by
+    intro j
+    have : (peProgram p).texts.getD j {} = peText (p.texts.getD j {}) := by
+      simp only [peProgram, List.getD_eq_getElem?_getD, List.getElem?_map]
+      cases p.texts[j]? <;> rfl
+    rw [this, emitText_pe o hm]
+  simp only [h1, h2, h3, h4, h5]
+  rcases peRes_cases (emitTops_pe o hm p.patches (p.texts.map (·.name)) p.tops 0) with
+    ⟨e', e, k1, k2, k3⟩ | ⟨a, k1, k2⟩
+  · simp only [k1, k2, peRes_error, k3]
+  · simp only [k1, k2]
+
+/-- Programs that differ only in token positions are emitted to the same lines (markers off). -/
+theorem emitProgram_congr (o : Opts) (hm : o.markers = false) {p' p : Program} (h : peProgram p' = peProgram p) :
+    peRes (emitProgram o p') = peRes (emitProgram o p) := by
+  rw [← emitProgram_pe o hm p', ← emitProgram_pe o hm p, h]
 
 end Pory.L2
